@@ -9,6 +9,7 @@ import (
 	clientpb "github.com/google/certificate-transparency-go/client/configpb"
 	"github.com/google/certificate-transparency-go/loglist3"
 	"github.com/google/certificate-transparency-go/trillian/ctfe"
+	"github.com/google/certificate-transparency-go/x509util"
 	"pgregory.net/rapid"
 
 	"verif/internal/harness"
@@ -40,8 +41,8 @@ func genContiguous(t *rapid.T, n int) []Window {
 		}
 	default:
 		b[0] = genBase(t, "base")
-		if b[0].S > maxTS-86400*365*70 {
-			b[0].S -= 86400 * 365 * 70 // room for six shards of up to ten years
+		if room := int64(n+1) * 86400 * 366 * 10; b[0].S > maxTS-room {
+			b[0].S -= room // room for n shards of up to ten years
 		}
 	}
 	if b[n] == (Inst{}) {
@@ -89,6 +90,10 @@ func clampTS(ws []Window) bool {
 
 func genShards(t *rapid.T) ShardsCase {
 	n := rapid.IntRange(1, 6).Draw(t, "n")
+	if rapid.IntRange(0, 5).Draw(t, "many") == 0 {
+		// monthly / quarterly sharding: long lists (implementations may switch algorithm with size)
+		n = rapid.IntRange(7, 40).Draw(t, "nmany")
+	}
 	sh := genContiguous(t, n)
 	orig := append([]Window(nil), sh...)
 	if rapid.IntRange(0, 9).Draw(t, "break") < 4 {
@@ -152,6 +157,20 @@ func genShards(t *rapid.T) ShardsCase {
 	np := rapid.IntRange(2, 6).Draw(t, "nprobes")
 	for i := 0; i < np; i++ {
 		c.Probes = append(c.Probes, genProbe(t, fmt.Sprintf("p%d", i), bounds))
+	}
+	// the two ends of the whole list get their own probes: in a long list they are two bounds among many
+	var ends []Inst
+	if sh[0].Start != nil {
+		ends = append(ends, *sh[0].Start)
+	}
+	if sh[len(sh)-1].Limit != nil {
+		ends = append(ends, *sh[len(sh)-1].Limit)
+	}
+	if len(ends) > 0 {
+		ne := rapid.IntRange(0, 2).Draw(t, "nends")
+		for i := 0; i < ne; i++ {
+			c.Probes = append(c.Probes, genProbe(t, fmt.Sprintf("e%d", i), ends))
+		}
 	}
 	return c
 }
@@ -243,20 +262,27 @@ func checkShards(t *testing.T, c ShardsCase) (v harness.Verdict) {
 		}
 	}
 
-	var opts []ctfe.CertValidationOpts
+	opts := map[int]ctfe.CertValidationOpts{}
+	var pool *x509util.PEMCertPool
 	if why == "" {
-		pool, _ := trustFor(c.Chain, secsOf(c.Probes))
-		if c.Chain.Lone {
-			v.Class("chain:lone-root")
+		pool, _ = trustFor(c.Chain, secsOf(c.Probes))
+		chainClasses(&v, c.Chain)
+		if len(sh) > 8 {
+			v.Class("contiguous:more-than-8-shards")
 		}
-		for i, w := range sh {
-			o, err := windowOpts(w, Policy{}, pool)
-			if err != nil {
-				v.Failf("ctfe-valid-window-refused", "ValidateLogConfig refuses the window of shard %d %v: %v", i, w, err)
-				return v
-			}
-			opts = append(opts, o)
+	}
+	// optsFor validates shard i's window on first use (long lists only visit some shards per instant)
+	optsFor := func(i int) (ctfe.CertValidationOpts, bool) {
+		if o, ok := opts[i]; ok {
+			return o, true
 		}
+		o, err := windowOpts(sh[i], Policy{}, pool)
+		if err != nil {
+			v.Failf("ctfe-valid-window-refused", "ValidateLogConfig refuses the window of shard %d %v: %v", i, sh[i], err)
+			return o, false
+		}
+		opts[i] = o
+		return o, true
 	}
 
 	span := Window{Start: sh[0].Start, Limit: sh[len(sh)-1].Limit}
@@ -320,9 +346,26 @@ func checkShards(t *testing.T, c ShardsCase) (v harness.Verdict) {
 			if rerr != nil {
 				ridx = -1
 			}
+			// every shard of a short list; of a long one the first, the last, the shard the client chose,
+			// the shard that contains the instant, and their neighbours
+			visit := map[int]bool{0: true, len(sh) - 1: true}
+			for _, x := range []int{ridx, want} {
+				for d := -1; d <= 1; d++ {
+					if x >= 0 && x+d >= 0 && x+d < len(sh) {
+						visit[x+d] = true
+					}
+				}
+			}
 			for i, w := range sh {
+				if len(sh) > 8 && !visit[i] {
+					continue
+				}
+				o, ok := optsFor(i)
+				if !ok {
+					return v
+				}
 				v.Class("ctfe:validate")
-				admitted := judgeValidate(&v, opts[i], w, s, c.Chain, fmt.Sprintf("shard %d: ", i), Policy{})
+				admitted := judgeValidate(&v, o, w, s, c.Chain, fmt.Sprintf("shard %d: ", i), Policy{})
 				if admitted != (ridx == i) {
 					v.Failf("route-admission-mismatch", "NotAfter %v: client routes to shard %d, a server with the window of shard %d %v admits=%v", s, ridx, i, w, admitted)
 				}
@@ -335,6 +378,6 @@ func checkShards(t *testing.T, c ShardsCase) (v harness.Verdict) {
 // ShardsProp is the shard-list half of C18.
 var ShardsProp = harness.Define(harness.Opts{
 	Name:  "shards",
-	Rule:  "shard lists of 1-6 contiguous shards (open or closed ends, nanosecond bounds) and broken variants (gap, overlap, inverted, empty, unbounded-then-more, missing start in the middle, reversed, duplicate, missing shard); 2-6 instants at bound-1s/-1ns/0/+1ns/+1s/far. NewTemporalLogClient refuses exactly the broken lists; IndexByDate = the one shard with start <= t < limit or none; each shard's window in ValidateChain admits iff routed there; the log-list filter keeps exactly the logs containing t. Non-trivial: broken list, or an instant within 1 s of a bound",
+	Rule:  "shard lists of 1-6 (one in six: 7-40) contiguous shards (open or closed ends, nanosecond bounds) and broken variants (gap, overlap, inverted, empty, unbounded-then-more, missing start in the middle, reversed, duplicate, missing shard); 2-6 instants at bound-1s/-1ns/0/+1ns/+1s/far plus 0-2 at the two ends of the whole list. NewTemporalLogClient refuses exactly the broken lists; IndexByDate = the one shard with start <= t < limit or none; each shard's window in ValidateChain admits iff routed there; the log-list filter keeps exactly the logs containing t. Non-trivial: broken list, or an instant within 1 s of a bound",
 	Quick: 3000, Thorough: 30000,
 }, genShards, checkShards)
